@@ -64,6 +64,28 @@ Proof.
   apply orb_false_iff; split; assumption.
 Qed.
 
+(* the hypothesis [nocc x s] of the single-occurrence law is implied by [nocc x C_s]: s is a subterm of C[s] *)
+Lemma sctx_nocc : forall x s a b, sctx x s a b -> nocc x b = true -> nocc x s = true.
+Proof.
+  intros x s a b H. induction H; intros Hn; cbn [nocc] in Hn.
+  - exact Hn.
+  - apply andb_true_iff in Hn. destruct Hn as [H1 _]. apply IHsctx; exact H1.
+  - apply andb_true_iff in Hn. destruct Hn as [_ H2]. apply IHsctx; exact H2.
+  - apply andb_true_iff in Hn. destruct Hn as [H1 _]. apply IHsctx; exact H1.
+  - apply andb_true_iff in Hn. destruct Hn as [_ H2]. apply IHsctx; exact H2.
+  - apply IHsctx; exact Hn.
+  - apply IHsctx; exact Hn.
+  - apply IHsctx; exact Hn.
+  - apply andb_true_iff in Hn. destruct Hn as [Hn _]. apply andb_true_iff in Hn. destruct Hn as [H1 _]. apply IHsctx; exact H1.
+  - apply andb_true_iff in Hn. destruct Hn as [Hn _]. apply andb_true_iff in Hn. destruct Hn as [_ H2]. apply IHsctx; exact H2.
+  - apply andb_true_iff in Hn. destruct Hn as [_ H3]. apply IHsctx; exact H3.
+  - apply andb_true_iff in Hn. destruct Hn as [H1 _]. apply IHsctx; exact H1.
+  - apply andb_true_iff in Hn. destruct Hn as [_ H2]. apply nocc_args in H2. apply Forall_app in H2.
+    destruct H2 as [_ H2]. inversion H2; subst. apply IHsctx; assumption.
+  - apply nocc_items in Hn. apply Forall_app in Hn. destruct Hn as [_ H2]. inversion H2; subst.
+    cbn [cnode] in *. apply IHsctx; assumption.
+Qed.
+
 (* ---- SEVERAL occurrences in sequential position: the reflexive-transitive closure of [sctx].
    C[x, x] -> C[s, x] -> C[s, s]: each step replaces ONE occurrence; the siblings evaluated before it may
    already contain s (assignment-free) and the ones after it may still contain x (arbitrary).  The outcomes of
